@@ -147,7 +147,11 @@ def type_infer(t, *, forbid_internal=True):
                 # An annotated occurrence of an undeclared variable must agree
                 # with the other occurrences of the variable
                 if t.name in incr_ctxt:
-                    unify(t.T, incr_ctxt[t.name])
+                    # (two occurrences annotated at different types denote two
+                    # variables, as before; only a type recorded for an
+                    # occurrence without annotation is constrained)
+                    if any(is_internal_type(T) for T in incr_ctxt[t.name].get_tsubs()):
+                        unify(t.T, incr_ctxt[t.name])
                 else:
                     incr_ctxt[t.name] = t.T
             return t.T
